@@ -62,7 +62,22 @@ pub fn e2(prop: &str, ty: &str, hk: u8, alpha: &str, flags: &[&str], universe: u
 pub fn run_any_shard(spec: &ShardSpec, cur: Option<&str>, trace: Option<(u64, String)>) -> ShardResult {
     match spec.engine.as_str() {
         "e1" | "e2" | "e7" => shard::run_shard(spec, cur, trace),
+        "e3" => shard::result_of(spec, crate::pairs::run_e3(spec, cur)),
+        "e3s" => shard::result_of(spec, crate::pairs::run_e3s(spec, cur)),
+        "c14" => shard::result_of(spec, crate::c14::run_c14(spec, cur)),
         e => panic!("unknown engine {}", e),
+    }
+}
+
+/// Outcome digest of a history in this binary: per-step observations, or the violation.
+pub fn outcome_of(spec: &ShardSpec, hist: &[String]) -> String {
+    let ops = match shard::strings_to_ops(hist) {
+        Ok(o) => o,
+        Err(e) => return format!("bad history: {}", e),
+    };
+    match shard::replay_shard(spec, &ops, true) {
+        Ok(()) => "ok".to_string(),
+        Err((i, v)) => format!("step {}: {}", i, sig_of(&v.kind, &v.msg, None)),
     }
 }
 
@@ -84,6 +99,34 @@ pub fn replay_any(spec: &ShardSpec, hist: &[String], quiet: bool) -> i32 {
                 Err((i, v)) => {
                     println!("replay: violation at step {}: {}: {}", i, v.kind, v.msg);
                     println!("SIG {}", sig_of(&v.kind, &v.msg, ops.get(i).copied().or(ops.last().copied())));
+                    1
+                }
+            }
+        }
+        "e3" | "e3s" | "c14" => {
+            let ops = match shard::strings_to_ops(hist) {
+                Ok(o) => o,
+                Err(e) => {
+                    eprintln!("{}", e);
+                    return 2;
+                }
+            };
+            let r = match spec.engine.as_str() {
+                "e3" => crate::pairs::replay_e3(spec, &ops),
+                "e3s" => crate::pairs::replay_e3s(spec, &ops),
+                _ => crate::c14::replay_c14(spec, &ops),
+            };
+            match r {
+                Ok(()) => {
+                    println!("replay: no violation");
+                    0
+                }
+                Err(v) => {
+                    if !quiet {
+                        println!("pair history: {:?}", ops);
+                    }
+                    println!("replay: violation: {}: {}", v.kind, v.msg);
+                    println!("SIG {}", sig_of(&v.kind, &v.msg, None));
                     1
                 }
             }
@@ -422,6 +465,213 @@ pub fn plan(prop: &str, tier: &str) -> Option<Plan> {
                 bounds = json!({"E1": "chains of length <=3 on every key class at every point of the growth path to N=130 and after one shaping deviation to N=40; on every concrete key to N=40", "E2": "fixpoint u=3 (length <=2) / u=2 (length <=3); ZST"});
             }
         }
+        "C11" => {
+            let mk = |ty: &str, hk: u8, n: usize, fam: usize, d3: usize, parts: usize, secs: f64| -> Vec<ShardSpec> {
+                (0..parts)
+                    .map(|p| {
+                        let mut x = e1(prop, ty, hk, 0, "", &["cursor"], n, 0, 0, "chk", secs);
+                        x.engine = "e3".into();
+                        x.extra.insert("fam".into(), fam.to_string());
+                        x.extra.insert("d3".into(), d3.to_string());
+                        x.extra.insert("part".into(), p.to_string());
+                        x.extra.insert("parts".into(), parts.to_string());
+                        x
+                    })
+                    .collect()
+            };
+            if q {
+                s.extend(mk("u32", H_GOOD, 33, 72, 1, 4, 45.0));
+                s.extend(mk("tk", H_GOOD, 33, 60, 1, 4, 45.0));
+                s.extend(mk("u32", H_LOW, 33, 48, 1, 2, 45.0));
+                s.extend(mk("tk", H_CONST, 20, 40, 1, 2, 45.0));
+                s.extend(mk("zst", H_GOOD, 4, 40, 1, 1, 45.0));
+                bounds = json!({"E3": "every ordered (source, destination) pair of a family of <=72 states (growth path to N=33 + states directly after one shaping deviation), hasher seed pairs (1,1),(1,2),(2,1), same/disjoint keys; clone(), clone_from(), and each of 12 divergent calls on either side afterwards"});
+            } else {
+                for &hk in &HS4 {
+                    s.extend(mk("u32", hk, 64, 240, 2, 4, 1500.0));
+                    s.extend(mk("tk", hk, 40, 160, 2, 4, 1500.0));
+                }
+                s.extend(mk("u32", H_GOOD, 130, 200, 1, 4, 1500.0));
+                s.extend(mk("zst", H_GOOD, 4, 40, 2, 1, 100.0));
+                bounds = json!({"E3": "every ordered pair of a family of <=240 states (growth path to N=64/130 + post-deviation states), 4 hashers, seed pairs (1,1),(1,2),(2,1); divergent histories of depth <=2"});
+            }
+        }
+        "C13" => {
+            let pairs = |ty: &str, hk: u8, n: usize, fam: usize, parts: usize, secs: f64| -> Vec<ShardSpec> {
+                (0..parts)
+                    .map(|p| {
+                        let mut x = e1(prop, ty, hk, 0, "", &["cursor"], n, 0, 0, "chk", secs);
+                        x.engine = "e3".into();
+                        x.world = "set".into();
+                        x.extra.insert("fam".into(), fam.to_string());
+                        x.extra.insert("part".into(), p.to_string());
+                        x.extra.insert("parts".into(), parts.to_string());
+                        x
+                    })
+                    .collect()
+            };
+            let set = |mut x: ShardSpec| {
+                x.world = "set".into();
+                x
+            };
+            if q {
+                for &hk in &HS4 {
+                    s.push(set(e1(prop, "u32", hk, 0, "skey+sshape", &["cursor"], 64, 1, 1, "chk", 45.0)));
+                }
+                s.push(set(e1(prop, "tk", H_GOOD, 0, "skey+sshape", &["cursor"], 40, 1, 1, "chk", 45.0)));
+                s.push(set(e1(prop, "u32", H_GOOD, 0, "skey+sshape", &["cursor"], 24, 2, 1, "chk", 45.0)));
+                s.push(set(e2(prop, "u32", H_GOOD, "skey+sshape2", &["cursor"], 4, "chk", 45.0)));
+                s.push(set(e2(prop, "tk", H_LOW, "skey+sshape2", &["cursor"], 3, "chk", 45.0)));
+                s.push(set(e2(prop, "zst", H_GOOD, "skey+sshape2", &["cursor"], 1, "chk", 45.0)));
+                s.extend(pairs("u32", H_GOOD, 40, 120, 4, 45.0));
+                s.extend(pairs("tk", H_LOW, 33, 80, 2, 45.0));
+                s.extend(pairs("zst", H_GOOD, 2, 40, 1, 45.0));
+                bounds = json!({"E1": "set histories: d<=1 at N=64 (4 hashers), d<=2 at N=24", "E2": "fixpoint u=4/3, ZST", "E3": "every ordered pair of a family of <=120 set states x 4 key-overlap patterns x seed pairs (1,1),(1,2)"});
+            } else {
+                for &hk in &HS4 {
+                    s.push(set(e1(prop, "u32", hk, 0, "skey+sshape", &["cursor"], 130, 1, 1, "chk", 900.0)));
+                    s.push(set(e1(prop, "tk", hk, 0, "skey+sshape", &["cursor"], 64, 1, 1, "chk", 900.0)));
+                    s.push(set(e1(prop, "u32", hk, 0, "skey+sshape", &["cursor"], 40, 2, 1, "chk", 1200.0)));
+                    s.extend(pairs("u32", hk, 64, 300, 4, 1200.0));
+                }
+                s.push(set(e2(prop, "u32", H_GOOD, "skey+sshape2", &["cursor"], 6, "chk", 1200.0)));
+                s.push(set(e2(prop, "tk", H_LOW, "skey+sshape2", &["cursor"], 5, "chk", 1200.0)));
+                s.push(set(e2(prop, "u32", H_CONST, "skey+sshape2", &["cursor"], 5, "chk", 1200.0)));
+                s.push(set(e2(prop, "zst", H_GOOD, "skey+sshape2", &["cursor"], 1, "chk", 100.0)));
+                s.extend(pairs("tk", H_GOOD, 64, 200, 4, 1200.0));
+                s.extend(pairs("u32", H_GOOD, 130, 300, 4, 1200.0));
+                s.extend(pairs("zst", H_GOOD, 2, 40, 1, 100.0));
+                bounds = json!({"E1": "set histories: d<=1 at N=130, d<=2 at N=40 (4 hashers)", "E2": "fixpoint u=6/5, ZST", "E3": "every ordered pair of a family of <=300 set states (to N=64/130) x 4 overlap patterns x 2 seed pairs, 4 hashers"});
+            }
+        }
+        "C14" => {
+            let mk = |world: &str, ty: &str, n: usize, rich: bool, parts: usize, secs: f64| -> Vec<ShardSpec> {
+                (0..parts)
+                    .map(|p| {
+                        let mut x = e1(prop, ty, H_GOOD, 0, "", &[], n, 0, 0, "chk", secs);
+                        x.engine = "c14".into();
+                        x.world = world.into();
+                        x.extra.insert("rich".into(), if rich { "1" } else { "0" }.into());
+                        x.extra.insert("part".into(), p.to_string());
+                        x.extra.insert("parts".into(), parts.to_string());
+                        x
+                    })
+                    .collect()
+            };
+            if q {
+                s.extend(mk("map", "u32", 64, false, 6, 45.0));
+                s.extend(mk("set", "u32", 64, false, 4, 45.0));
+                s.extend(mk("map", "tk", 33, false, 3, 45.0));
+                s.extend(mk("map", "u32", 20, true, 3, 45.0));
+                bounds = json!({"classes": "for every n<=64: orders {identity,reverse,rotate} x initial capacity {0,2n+1} x tombstones {0,n/2} x splices {none,reserve mid-way,shrink_to_fit at the end} x hashers {HGood seed 1, HGood seed 2, HLow}; one member per physical layout; all ordered pairs, triples of the first 12, single-element negatives; rich product (5 orders x 3 capacities x 5 splices x 5 hashers) for n<=20"});
+            } else {
+                s.extend(mk("map", "u32", 96, true, 16, 1500.0));
+                s.extend(mk("set", "u32", 96, true, 8, 1500.0));
+                s.extend(mk("map", "tk", 64, true, 8, 1500.0));
+                s.extend(mk("set", "tk", 48, false, 4, 1500.0));
+                bounds = json!({"classes": "for every n<=96: 5 orders x 3 initial capacities x 2 tombstone patterns x 5 splices x 5 hasher states; all ordered pairs per class, negatives"});
+            }
+        }
+        "C16" => {
+            let single = |world: &str, ty: &str, hk: u8, n: usize, secs: f64| {
+                let mut x = e1(prop, ty, hk, 0, "", &["cursor"], n, 0, 0, "chk", secs);
+                x.engine = "e3s".into();
+                x.world = world.into();
+                x.extra.insert("fam".into(), "100000".into());
+                x
+            };
+            let pairs = |ty: &str, hk: u8, n: usize, fam: usize, parts: usize, secs: f64| -> Vec<ShardSpec> {
+                (0..parts)
+                    .map(|p| {
+                        let mut x = e1(prop, ty, hk, 0, "", &["cursor"], n, 0, 0, "chk", secs);
+                        x.engine = "e3".into();
+                        x.world = "set".into();
+                        x.extra.insert("fam".into(), fam.to_string());
+                        x.extra.insert("part".into(), p.to_string());
+                        x.extra.insert("parts".into(), parts.to_string());
+                        x
+                    })
+                    .collect()
+            };
+            if q {
+                for w in ["map", "set"] {
+                    for &hk in &[H_GOOD, H_LOW] {
+                        s.push(single(w, "u32", hk, 64, 45.0));
+                    }
+                    s.push(single(w, "tk", H_GOOD, 40, 45.0));
+                    s.push(single(w, "zst", H_GOOD, 2, 45.0));
+                }
+                s.push(single("map", "u32", H_GOOD, 130, 45.0));
+                s.extend(pairs("u32", H_GOOD, 40, 100, 4, 45.0));
+                s.extend(pairs("tk", H_LOW, 24, 60, 2, 45.0));
+                bounds = json!({"single": "every family state (growth path to N=64/130 + states after one shaping deviation): serde_test token round trip (exact length, order, each element once; deserialize and deserialize_in_place compared with ==) and value-deserializers with size hints {exact, none, 0, 10^9}", "pairs": "HashSet::deserialize_in_place for every ordered (source, destination) pair of <=100 states x 4 hints x 2 seed pairs"});
+            } else {
+                for w in ["map", "set"] {
+                    for &hk in &HS4 {
+                        s.push(single(w, "u32", hk, 130, 900.0));
+                        s.push(single(w, "tk", hk, 64, 900.0));
+                    }
+                    s.push(single(w, "zst", H_GOOD, 2, 100.0));
+                }
+                for &hk in &HS4 {
+                    s.extend(pairs("u32", hk, 64, 240, 4, 1200.0));
+                }
+                s.extend(pairs("tk", H_GOOD, 40, 160, 4, 1200.0));
+                bounds = json!({"single": "every family state to N=130 (u32) / 64 (Tk), 4 hashers", "pairs": "deserialize_in_place for every ordered pair of <=240 states x 4 hints x 2 seed pairs, 4 hashers"});
+            }
+        }
+        "C17" => {
+            // The spaces of C01 (E1/E2) and C10 (argument windows), each run by the chk and the rel
+            // binary (compared transcript by transcript) and, for a subset, by the asan binary.
+            let mut base: Vec<ShardSpec> = vec![];
+            let full = "look+mut+ch1+bulk+shape";
+            if q {
+                for &hk in &[H_GOOD, H_LOW] {
+                    base.push(e1(prop, "u32", hk, 0, full, &[], 64, 1, 1, "chk", 45.0));
+                    base.push(e2(prop, "u32", hk, "look1+mut+ch0+shape2", &[], 4, "chk", 45.0));
+                }
+                base.push(e1(prop, "u32", H_GOOD, 0, "look1+mut+ch0+shape", &[], 24, 2, 1, "chk", 45.0));
+                base.push(e1(prop, "u32", H_GOOD, 0, "ch3", &[], 40, 1, 0, "chk", 45.0));
+                base.push(e1(prop, "tk", H_TAG, 0, full, &[], 33, 1, 1, "chk", 45.0));
+                base.push(e1(prop, "u32", H_GOOD, 0, "mut1+ch0+shape/capall+caphuge+fill", &["c10"], 24, 2, 1, "chk", 45.0));
+                base.push(e1(prop, "u32", H_GOOD, 0, "capall+caphuge", &["c10"], 130, 1, 0, "chk", 45.0));
+                base.push(e2(prop, "zst", H_GOOD, "look+mut+ch1+bulk2+shape2+caphuge", &["c10"], 1, "chk", 45.0));
+                bounds = json!({"spaces": "C01: E1 d<=1 at N=64, d<=2 at N=24, chains<=3 to N=40, E2 fixpoint u=4; C10: all capacity arguments after <=1 deviation to N=24 and on the growth path to 130", "profiles": "chk vs rel transcripts; asan on the E2 and chain spaces"});
+            } else {
+                for &hk in &HS4 {
+                    base.push(e1(prop, "u32", hk, 0, full, &[], 130, 1, 1, "chk", 900.0));
+                    base.push(e1(prop, "u32", hk, 0, "look1+mut+ch0+shape", &[], 48, 2, 1, "chk", 1200.0));
+                    base.push(e2(prop, "u32", hk, "look1+mut+ch0+shape2", &[], 5, "chk", 1200.0));
+                }
+                base.push(e1(prop, "u32", H_GOOD, 0, "ch3", &[], 130, 1, 0, "chk", 900.0));
+                base.push(e1(prop, "tk", H_GOOD, 0, full, &[], 130, 1, 1, "chk", 900.0));
+                base.push(e1(prop, "tk", H_TAG, 0, "look1+mut+ch0+shape", &[], 33, 2, 1, "chk", 1200.0));
+                base.push(e1(prop, "u32", H_GOOD, 0, "mut1+ch0+shape/capall+caphuge+fill", &["c10"], 64, 2, 1, "chk", 1200.0));
+                base.push(e1(prop, "u32", H_GOOD, 0, "capall+caphuge", &["c10"], 600, 1, 0, "chk", 900.0));
+                base.push(e2(prop, "zst", H_GOOD, "look+mut+ch1+bulk2+shape2+caphuge", &["c10"], 1, "chk", 300.0));
+                base.push(e2(prop, "tk", H_GOOD, "look1+mut+ch0+shape2+caphuge", &["c10"], 4, "chk", 1200.0));
+                bounds = json!({"spaces": "C01: E1 d<=1 at N=130, d<=2 at N=48, chains<=3 to N=130, E2 fixpoint u=5; C10: all capacity arguments after <=1 deviation to N=64 and on the growth path to 600", "profiles": "chk vs rel transcripts; asan on the E2 and chain spaces"});
+            }
+            for b in &base {
+                s.push(b.clone());
+                let mut r = b.clone();
+                r.profile = "rel".into();
+                s.push(r);
+            }
+            for b in &base {
+                if b.engine == "e2" || b.alpha == "ch3" {
+                    let mut a = b.clone();
+                    a.profile = "asan".into();
+                    if q && a.universe > 3 {
+                        a.universe = 3;
+                    }
+                    if q && a.n > 24 {
+                        a.n = 24;
+                    }
+                    s.push(a);
+                }
+            }
+        }
         _ => return None,
     }
     Some(Plan { level, shards: s, bounds, assumptions: base_assumptions() })
@@ -436,8 +686,77 @@ pub fn check(prop: &str, tier: &str, t0: Instant) -> i32 {
         }
     };
     let ends = run_jobs(p.shards, par(), &format!("{}-{}", prop, tier));
-    let rep = collect(prop, tier, p.level, ends);
-    let extra = json!({"bounds": p.bounds});
-    let _ = orch::root();
+    let mut rep = collect(prop, tier, p.level, ends);
+    let mut extra = json!({"bounds": p.bounds});
+    if prop == "C17" {
+        let d = differential(&mut rep, tier);
+        extra["profile_pairs_compared"] = json!(d.0);
+        extra["transcripts_equal"] = json!(d.1);
+    }
     finish(rep, extra, p.assumptions, t0)
+}
+
+/// E6: compare the chk and rel transcripts of every shard pair; on a mismatch re-run the first
+/// differing chunk with tracing and report the first history whose outcome differs.
+fn differential(rep: &mut orch::Report, tier: &str) -> (usize, usize) {
+    use std::collections::BTreeMap;
+    let mut by: BTreeMap<String, Vec<ShardResult>> = BTreeMap::new();
+    for r in &rep.results {
+        if r.spec.profile == "asan" {
+            continue;
+        }
+        let mut k = r.spec.clone();
+        k.profile = String::new();
+        by.entry(serde_json::to_string(&k).unwrap()).or_default().push(r.clone());
+    }
+    let (mut pairs, mut equal) = (0, 0);
+    let mut todo: Vec<(ShardSpec, ShardSpec, u64)> = vec![];
+    for (_, v) in by {
+        if v.len() != 2 {
+            rep.machinery.push(format!("profile pair incomplete for {}", v[0].spec.label()));
+            continue;
+        }
+        pairs += 1;
+        let (a, b) = (&v[0], &v[1]);
+        if a.digest == b.digest && a.states == b.states && a.transitions == b.transitions {
+            equal += 1;
+            continue;
+        }
+        let c = a.chunk_digests.iter().zip(b.chunk_digests.iter()).position(|(x, y)| x != y).unwrap_or(a.chunk_digests.len().min(b.chunk_digests.len())) as u64;
+        todo.push((a.spec.clone(), b.spec.clone(), c));
+    }
+    for (mut a, mut b, c) in todo {
+        a.trace_chunk = Some(c);
+        b.trace_chunk = Some(c);
+        let tag = format!("C17-{}-trace", tier);
+        let _ = run_jobs(vec![a.clone(), b.clone()], 2, &tag);
+        let dir = orch::root().join("run").join(&tag);
+        let mut traces: Vec<Vec<String>> = vec![];
+        if let Ok(rd) = std::fs::read_dir(&dir) {
+            let mut files: Vec<_> = rd.flatten().map(|e| e.path()).filter(|p| p.to_string_lossy().ends_with(".trace")).collect();
+            files.sort();
+            for f in files {
+                traces.push(std::fs::read_to_string(&f).unwrap_or_default().lines().map(|s| s.to_string()).collect());
+            }
+        }
+        if traces.len() != 2 {
+            rep.machinery.push(format!("could not trace chunk {} of {}", c, a.label()));
+            continue;
+        }
+        let n = traces[0].len().min(traces[1].len());
+        let i = (0..n).find(|&i| traces[0][i] != traces[1][i]).unwrap_or(n);
+        let (l0, l1) = (traces[0].get(i).cloned().unwrap_or_default(), traces[1].get(i).cloned().unwrap_or_default());
+        let hist: Vec<String> = l0.split('\t').next().unwrap_or("").split(';').filter(|s| !s.is_empty()).map(|s| s.to_string()).collect();
+        let h1: Vec<String> = l1.split('\t').next().unwrap_or("").split(';').filter(|s| !s.is_empty()).map(|s| s.to_string()).collect();
+        let hist = if hist.is_empty() { h1 } else { hist };
+        let last = hist.last().map(|s| s.split('(').next().unwrap_or("").to_string()).unwrap_or_default();
+        let msg = format!("outcome differs between build profiles: chk {} vs rel {}", l0.split('\t').nth(1).unwrap_or("-"), l1.split('\t').nth(1).unwrap_or("-"));
+        let v = shard::ViolRec { kind: "diff".into(), msg: msg.clone(), history: hist, sig: format!("diff:profiles disagree op={}", last) };
+        rep.violations.push((a.clone(), v));
+    }
+    (pairs, equal)
+}
+
+pub fn transcript_of(spec: &ShardSpec, ops: &[crate::op::Op]) -> String {
+    shard::transcript_shard(spec, ops)
 }
